@@ -224,6 +224,9 @@ def run(res, tier, seed, search):
     check_history(res, rng, "euclidean", "dense32", 0, ops=[("query", 3), ("update", 0, 0), ("pickle",), ("query", 7), ("update", 2, 0, "stray"), ("query", 3), ("update", 0, 0), ("update", 1, 2), ("query", 7)])
     # updates only, never prepared: whatever the accessors keep between two reads must not outlive an update
     check_history(res, rng, "euclidean", "dense32", 0, ops=[("update", 2, 0), ("update", 0, 2), ("update", 1, 1), ("update", 0, 0), ("query", 3)])
+    # row numbers that are not rows of the current data (past the end; negative) are refused, before and after a prepare, with the index untouched
+    check_history(res, rng, "euclidean", "dense32", 0, ops=[("update-bad", 0, "negative"), ("update-bad", 2, "high"), ("query", 3), ("update-bad", 1, "negative"),
+                                                            ("update", 1, 2), ("update-bad", 0, "high"), ("query", 7)])
     start = (seed * nm) % len(METRICS)
     for i in range(nh):
         metric, kind = METRICS[(start + i % nm) % len(METRICS)]
